@@ -208,6 +208,12 @@ def group_card(node):
 
 
 def configs(text):
+    from .. import sem as _sem
+    with _sem.deep_recursion():
+        return _configs(text)
+
+
+def _configs(text):
     from .. import sem
     model = parse(text)
     root = model['root']
